@@ -26,7 +26,7 @@ def run(ctx):
                      "request's profile, start == now and >= the request's release; "
                      "getters of cluster and tasks identical before/after each call (compared in Coq as values)")
     dist_all = {}
-    for mode, n in (("natural", 80 if quick else 1500), ("adversarial", 35 if quick else 500), ("load", 25 if quick else 300), ("sim", 12 if quick else 150)):
+    for mode, n in (("natural", 60 if quick else 1500), ("adversarial", 30 if quick else 500), ("load", 20 if quick else 300), ("sim", 10 if quick else 150)):
         hs, impls = c15.generate(ctx, n, size, mode)
         nt, dist = c15.stats(ctx, hs, impls)
         ctx.cov["distinct_nontrivial"] += nt
